@@ -347,7 +347,8 @@ func (m *Model) ValidateFn() *ssa.Function {
 	if api == nil {
 		return nil
 	}
-	for g := range m.staticReach(api, false) {
+	var cands []*ssa.Function
+	for _, g := range sortedFns(m.staticReach(api, false)) {
 		if g == api || g.Parent() != nil {
 			continue
 		}
@@ -356,7 +357,7 @@ func (m *Model) ValidateFn() *ssa.Function {
 			continue
 		}
 		hasGet := false
-		for _, h := range withClosures(g) {
+		for _, h := range sortedFns(m.staticReach(g, true)) {
 			eachInstr(h, func(in ssa.Instruction) {
 				if _, ok := m.isKVCall(valueOf(in), "Get"); ok {
 					hasGet = true
@@ -364,7 +365,20 @@ func (m *Model) ValidateFn() *ssa.Function {
 			})
 		}
 		if hasGet {
+			cands = append(cands, g)
+		}
+	}
+	// the outermost candidate: not reached from another one
+	for _, g := range cands {
+		inner := false
+		for _, o := range cands {
+			if o != g && m.staticReach(o, true)[g] {
+				inner = true
+			}
+		}
+		if !inner {
 			m.validateFn = g
+			break
 		}
 	}
 	return m.validateFn
